@@ -20,6 +20,7 @@ from oslo_config import cfg
 from oslo_serialization import jsonutils
 import stevedore
 
+from oslo_policy import _parser
 from oslo_policy import policy
 
 LOG = logging.getLogger(__name__)
@@ -111,6 +112,18 @@ def _get_enforcer(namespace):
     return enforcer
 
 
+def _format_rule_text(name, check_str):
+    """Format a rule as a quoted ``"name": "check string"`` pair.
+
+    The text is valid in both a YAML and a JSON policy file.
+    """
+    if not isinstance(check_str, str):
+        # A rule in the legacy list-of-lists syntax; write out the equivalent
+        # check string
+        check_str = str(_parser.parse_rule(check_str))
+    return '{}: {}'.format(jsonutils.dumps(name), jsonutils.dumps(check_str))
+
+
 def _format_help_text(description):
     """Format a comment for a policy based on the description provided.
 
@@ -173,9 +186,7 @@ def _format_rule_default_yaml(default, include_help=True, comment_rule=True,
                                  text.
     :returns: A string containing a yaml representation of the RuleDefault
     """  # noqa: E501
-    text = ('"%(name)s": "%(check_str)s"\n' %
-            {'name': default.name,
-             'check_str': default.check_str})
+    text = _format_rule_text(default.name, default.check_str) + '\n'
 
     if include_help:
         op = ""
@@ -259,9 +270,7 @@ def _format_rule_default_json(default):
     :param default: A policy.RuleDefault or policy.DocumentedRuleDefault object
     :returns: A string containing a json representation of the RuleDefault
     """  # noqa: E501
-    return ('"%(name)s": "%(check_str)s"' %
-            {'name': default.name,
-             'check_str': default.check_str})
+    return _format_rule_text(default.name, default.check_str)
 
 
 def _sort_and_format_by_section(policies, output_format='yaml',
@@ -509,9 +518,7 @@ def _convert_policy_json_to_yaml(namespace, policy_file, output_file=None):
     if file_policies:
         yaml_format_rules.append(extra_rules_text)
     for file_rule, check_str in file_policies.items():
-        rule_text = ('"%(name)s": "%(check_str)s"\n' %
-                     {'name': file_rule,
-                      'check_str': check_str})
+        rule_text = _format_rule_text(file_rule, check_str) + '\n'
         yaml_format_rules.append(rule_text)
 
     if output_file:
